@@ -160,6 +160,14 @@ def explore(res, rng, n):
         r = check_run(res, name, N, p0, maxSub, rng.randrange(10 ** 6), reqs, meta, quad, config)
         if i < 2:
             res.samples.append(meta[-1][0])
+    # ---- the failure domain is reached exactly at the last allowed level: the same run repeated with maxSubsets = the number of levels it
+    # needed (the seed fixes everything else), so the loop is left at numSteps == maxSubsets
+    for name, N, p0, sd in (('linear2', 50, 0.1, 11), ('lognormal', 100, 0.07, 5), ('quadratic', 40, 0.25, 3)):
+        r0 = traced_run(name, N, p0, 12, sd)
+        m = int(r0['lsf'].shape[0])
+        if 1 <= m < 12:
+            res.stat('converged_at_the_last_allowed_level')
+            check_run(res, name, N, p0, m, sd, reqs, meta)
     for (case, levels, nc, rank), a in zip(meta, core.driver_batch(reqs)):
         res.traces += 1
         if isinstance(levels, tuple) and levels[0] == 'pf':
